@@ -2,7 +2,7 @@
 
 use std::cmp::Ordering;
 use std::fs::{File, OpenOptions};
-use std::io::{BufReader, BufWriter, ErrorKind, Read, Seek, SeekFrom, Write as IoWrite};
+use std::io::{BufReader, BufWriter, ErrorKind, Read, Seek, Write as IoWrite};
 use std::os::fd::{AsRawFd, RawFd};
 use std::path::Path;
 use std::sync::Arc;
@@ -20,6 +20,7 @@ use super::{
     corruption_crc_checksum_failed, corruption_entry_size_exceeds_max, corruption_fsync_failed,
     corruption_header_size_exceeds_max, corruption_invalid_discriminant, corruption_log_poisoned,
     corruption_shared_not_zero, corruption_true_up_exceeds_header_max,
+    corruption_true_up_padding_not_zero,
     corruption_truncation_no_second_header, empty_batch, error_with_path, io_result,
     io_result_with_context, logic_error_buf_writer_into_inner_failed, system_error, table_full,
     unpack_key_value_entry_prototk, unpack_log_header,
@@ -766,7 +767,21 @@ impl<R: Read + Seek> LogIterator<R> {
         if trued_up - offset > HEADER_MAX_SIZE {
             return Err(corruption_true_up_exceeds_header_max(offset, trued_up));
         }
-        io_result(self.input.seek(SeekFrom::Start(trued_up)))?;
+        // NOTE:  The writer pads up to the boundary with zeros and a short batch may legitimately
+        // begin this close to the boundary.  Skipping without looking would turn a batch whose
+        // header-size byte was damaged to zero into padding and silently drop it.
+        let mut padding = [0u8; HEADER_MAX_SIZE as usize];
+        let padding = &mut padding[..(trued_up - offset) as usize];
+        let mut filled = 0;
+        while filled < padding.len() {
+            match io_result(self.input.read(&mut padding[filled..]))? {
+                0 => break,
+                n => filled += n,
+            }
+        }
+        if padding[..filled].iter().any(|b| *b != 0) {
+            return Err(corruption_true_up_padding_not_zero(offset, trued_up));
+        }
         Ok(())
     }
 }
